@@ -17,7 +17,7 @@ MANIFEST = {
     "technique": "exhaustive enumeration of the save/load configuration product against a format capability model and "
                  "independent byte/text readers",
     "text": "18 extensions x n_atoms {1,2,9,10,13} x n_frames {1,2,3} x cell {none, cubic, orthorhombic, triclinic, "
-            "per-frame varying, a cell with beta and gamma on opposite sides of 90 degrees, three single-skew monoclinic cells, two small rhombohedral cells at the two-atom restart reader's box/velocity threshold} x magnitude {1e-3, 1, 90, 950 nm; 20 000 nm along z for binary formats} x sign {mixed, positive} x time {default, uniform 2 ps, "
+            "per-frame varying, a rectangular first frame followed by sheared frames, a cell with beta and gamma on opposite sides of 90 degrees, three single-skew monoclinic cells, two small rhombohedral cells at the two-atom restart reader's box/velocity threshold} x magnitude {1e-3, 1, 90, 950 nm; 20 000 nm along z for binary formats} x sign {mixed, positive} x time {default, uniform 2 ps, "
             "non-uniform} x options (gro precision 1/3/5; pdb ter x header x bfactors) — quick runs a complete sub-product "
             "(atoms {1,9,10}, frames {1,3}, cells {none, orthorhombic, triclinic-varying}, magnitudes {1, 90}); each cell "
             "is saved, reloaded with mdtraj and read with an independent reader; frames/atoms must match, coordinates "
@@ -70,6 +70,7 @@ CELLS = {
     # AMBER restart file, whose third line is either velocities or the box, has to tell them apart
     "rhombo60": ([3.0, 3.0, 3.0], [60.0, 60.0, 60.0]),
     "acute": ([3.0, 3.0, 3.0], [50.0, 55.0, 58.0]),
+    "shear": None,      # per-frame, built in build_traj
 }
 
 
@@ -92,6 +93,11 @@ def build_traj(n_atoms, n_frames, cell, mag, sign, timek, seed):
     if cell == "varying":
         L = np.array([[4.0 + 0.25 * f, 5.0 + 0.5 * f, 6.5 - 0.25 * f] for f in range(n_frames)])
         A = np.array([[75.0 + 2 * f, 100.0 - f, 115.0 - 3 * f] for f in range(n_frames)])
+        kw = dict(unitcell_lengths=L, unitcell_angles=A)
+    elif cell == "shear":
+        # a flexible-cell run that starts from a rectangular box: frame 0 is 90/90/90, the later frames are sheared
+        L = np.array([[4.0, 5.0, 6.5]] * n_frames)
+        A = np.array([[90.0, 90.0, 90.0]] + [[80.0 + f, 95.0, 70.0 + 2 * f] for f in range(1, n_frames)])
         kw = dict(unitcell_lengths=L, unitcell_angles=A)
     elif CELLS[cell] is not None:
         L, A = CELLS[cell]
@@ -333,6 +339,23 @@ def run_case(case, scratch, seed):
             # beyond the format's field limit: outside the property's quantifier ("magnitudes ... to the format's field
             # limit"); whether the writer raises, degrades precision or writes touching fields is not judged
             st["refused"] = "outside the field limit (not judged)"
+            if ext in ("pdb", "pdb.gz"):
+                # the PDB writer has an explicit fallback for numbers that overflow %8.3f (it keeps the leading 8
+                # characters, i.e. drops decimals): precision beyond the limit is not judged, but the file must not hold a
+                # grossly different number without any error -- an exception, or the value to within 0.1 %
+                try:
+                    t.save(path, **kw)
+                    r = _load_back(path, ext, t.topology, n_frames)
+                except Exception:  # noqa
+                    return viol, st
+                if r.xyz.shape == t.xyz.shape:
+                    e = np.abs(r.xyz.astype(float) - t.xyz.astype(float))
+                    bad = e > 1e-3 * np.abs(t.xyz) + 0.01
+                    if bad.any():
+                        i = np.unravel_index(np.argmax(e), e.shape)
+                        viol.append((tag + "|beyond-field-limit|silently-other-number", "coordinate %r nm (does not fit %%8.3f) reloaded as %r nm "
+                                     "without any error" % (float(t.xyz[i]), float(r.xyz[i])), rep))
+                    st["refused"] = "outside the field limit (only gross silent corruption judged)"
             return viol, st
         try:
             t.save(path, **kw)
@@ -395,8 +418,8 @@ def cases(quick):
     exts = list(CAP)
     atoms = [1, 9, 10] if quick else [1, 2, 9, 10, 13]
     frames = [1, 3] if quick else [1, 2, 3]
-    cells = ["none", "ortho", "varying", "mono_alpha", "triclinic_opp"] if quick else \
-        ["none", "cubic", "ortho", "triclinic", "triclinic_opp", "varying", "mono_alpha", "mono_beta", "mono_gamma", "rhombo60", "acute"]
+    cells = ["none", "ortho", "varying", "shear", "mono_alpha", "triclinic_opp"] if quick else \
+        ["none", "cubic", "ortho", "triclinic", "triclinic_opp", "varying", "shear", "mono_alpha", "mono_beta", "mono_gamma", "rhombo60", "acute"]
     mags = [1.0, 90.0] if quick else [1e-3, 1.0, 90.0, 950.0]     # 950 nm = 9500 A: just under the %8.3f field limit
     signs = ["mixed"] if quick else ["mixed", "positive"]
     times = ["uniform", "nonuniform"] if quick else ["default", "uniform", "nonuniform"]      # uniform starts at exactly 0 ps
@@ -413,6 +436,9 @@ def cases(quick):
         if quick:
             for c in itertools.product([ext], [2], [1, 3], ["rhombo60"], [1.0], signs, times, opts[:1]):
                 out.append(c)
+            if ext in ("pdb", "pdb.gz"):        # -150 nm = -1500 A does not fit %8.3f: the writer's overflow fallback
+                for c in itertools.product([ext], [9], [1], ["ortho"], [150.0], signs, times[:1], opts[:1]):
+                    out.append(c)
         # binary formats have no narrow text field: 20 000 nm along z only (XTC packs integers of x*1000 per axis)
         if CAP[ext]["q"] in (0.0,) or ext == "xtc":
             for c in itertools.product([ext], atoms, frames, ["none", "ortho"], [20000.0], ["z-long"], times[:1], opts):
